@@ -41,6 +41,8 @@ InitRead(i) == G.read[i]        \* [k |-> "None"|"Unknown"|"All"|"Set", vs |-> <
 Discs    == {Disc(i) : i \in Ids}
 Fails    == Rng(G.fails)        \* fault injection: jobs whose exec returns Err
 Panics   == Rng(G.panics)       \* fault injection: jobs whose exec panics
+AnyFault == IF "anyfault" \in DOMAIN G THEN G.anyfault ELSE FALSE
+                                \* fault injection: any one job may fail or panic (at most one fault)
 
 VARIABLES
   pending,   \* DOMAIN of jobs_pending
@@ -259,7 +261,10 @@ Finish(j, ok, panicked) ==
                       THEN "counter underflow" ELSE err
   /\ UNCHANGED <<pending, racc, launched, succ, jobCount, queue, chan, mainPc, batch, sawErr>>
 
-FinishAny(j) == Finish(j, j \notin Fails \cup Panics, j \in Panics)
+FinishAny(j) ==
+  \/ j \notin Fails \cup Panics /\ Finish(j, TRUE, FALSE)
+  \/ (j \in Fails \/ (AnyFault /\ bad = {})) /\ Finish(j, FALSE, FALSE)
+  \/ (j \in Panics \/ (AnyFault /\ bad = {})) /\ Finish(j, FALSE, TRUE)
 
 Send(j) ==
   /\ j \in decd
@@ -298,7 +303,7 @@ TypeOK ==
 NoSchedulerPanic == err = "none"
 
 \* C02: a valid source (no injected faults) never ends in UnableToProceed
-NoUnable == (Fails \cup Panics = {}) => mainPc # "unable"
+NoUnable == (Fails \cup Panics = {} /\ ~AnyFault) => mainPc # "unable"
 
 \* C02: ReadAfterProducer + NoConflictOverlap + StableOrder, folded: while j executes, every job
 \* that touches something j touches (one of them writing) and is canonically earlier has
